@@ -42,6 +42,30 @@ Proof.
 Qed.
 Print Assumptions C17_boundary_roundtrip.
 
+(* the same round trip when the DECODER works with another neighbour table f2t' (from_meshio: the table of the mesh as
+   loaded, e.g. with sorted cells) but with the SAME slot table t2f as the encoder (from_meshio passes the slot table of the
+   connectivity as read; checked by the translator): facets sorted, and the decoded flag keeps the tagged side — whenever
+   the owner cell chosen by the encoder is one of the two distinct neighbours in f2t', the flag selects it *)
+Theorem C17_boundary_roundtrip_loaded_tables :
+  (forall (nslots nt : nat) (t2f : mat nat) (f2t f2t' : mat Z) (ori : list bool) (b : list nat),
+     length ori = length b -> NoDup b ->
+     (forall f o, In (f, o) (combine b ori) -> coherent1 nslots nt t2f f2t f o) ->
+     gen_decode_boundary nslots nt t2f f2t' (gen_encode_boundary nslots nt t2f f2t ori b)
+     = (map fst (sort_kv (combine b ori)),
+        map (fun fo : nat * bool => Z.eqb (get2 (- 1)%Z f2t' 1 (fst fo)) (side_cell f2t (snd fo) (fst fo)))
+            (sort_kv (combine b ori)))) /\
+  (forall (f2t' : mat Z) (f : nat) (c : Z),
+     get2 (- 1)%Z f2t' 0 f <> get2 (- 1)%Z f2t' 1 f ->
+     (c = get2 (- 1)%Z f2t' 0 f \/ c = get2 (- 1)%Z f2t' 1 f) ->
+     get2 (- 1)%Z f2t' (if Z.eqb (get2 (- 1)%Z f2t' 1 f) c then 1 else 0) f = c).
+Proof.
+  split; [|exact decoded_flag_keeps_side].
+  intros nslots nt t2f f2t f2t' ori b Hlen Hnd Hcoh.
+  rewrite gen_decode_boundary_is_model, gen_encode_boundary_is_model.
+  exact (boundary_roundtrip_other_f2t nslots nt t2f f2t f2t' ori b Hlen Hnd Hcoh).
+Qed.
+Print Assumptions C17_boundary_roundtrip_loaded_tables.
+
 (* what that right-hand side is: the facet column is strictly increasing and has exactly the tagged facets;
    the (facet, flag) pairs are exactly the tagged pairs *)
 Theorem C17_roundtrip_result_spec :
